@@ -144,6 +144,7 @@ pub struct Feats {
     pub getmut_writes: u32,
     pub long_tick_period: bool,
     pub errs: u32,
+    pub evict_then_reject: u32,
 }
 
 // ------------------------------------------------------------------------------------------
@@ -1096,6 +1097,31 @@ impl<'a> Interp<'a> {
                     }
                     if self.m.slack > 0 || used > max {
                         self.feats.over_budget_then_admit += 1;
+                    }
+                    // C07: every victim leaves the store and is reported to on_evict, whether or
+                    // not the newcomer is admitted in the end
+                    let resident_now: BTreeSet<u64> = self.sut.snapshot().entries.iter().map(|e| e.index).collect();
+                    for v in victims.iter() {
+                        if self.m.store.contains_key(v) {
+                            if resident_now.contains(v) && self.m.pending.is_empty() {
+                                self.fail(
+                                    "victim_not_evicted",
+                                    &["C07", "C06"],
+                                    format!("the policy evicted key {} to make room for key {} (newcomer {}) but the entry is still resident", v, index, if admitted { "admitted" } else { "rejected in a later round" }),
+                                );
+                            }
+                            let val = self.m.store.get(v).map(|e| e.val);
+                            if !log.iter().any(|e| matches!(e, Ev::Evict(x, ..) if Some(*x) == val)) {
+                                self.fail(
+                                    "victim_not_reported",
+                                    &["C07", "C08"],
+                                    format!("victim {} of the admission decision for key {} was not handed to on_evict", v, index),
+                                );
+                            }
+                        }
+                    }
+                    if !admitted && !victims.is_empty() {
+                        self.feats.evict_then_reject += 1;
                     }
                     for v in victims {
                         let vc = self.m.policy.remove(&v).unwrap();
